@@ -25,6 +25,8 @@ import DafRel.Lemmas.SqlRunSound
 
 namespace DafRel.Props.C11
 
+variable {I : NodeInv}
+
 open DafRel
 
 theorem slice_returns_the_window (σ : Leaves) (st : Store) (fuel : Nat) (a : Nat) (b : Option Nat) (t : Rel)
@@ -60,7 +62,7 @@ theorem materialize_refuses_unsliced_sort (st : Store) (fuel : Nat) (t : Rel) (n
   rfl
 
 theorem emitted_select_honours_sort_and_slice (σ : Leaves) (s : SqlState) (fuel : Nat) (S : Rel) (ctr : Nat)
-    (q : Query) (c : Nat) (hg : Good σ S) (hs : S.isSelect = true) (hrd : S.SqlReady s s.tables σ)
+    (q : Query) (c : Nat) (hg : Good I σ S) (hs : S.isSelect = true) (hrd : S.SqlReady s s.tables σ)
     (h : compileSelect s fuel S ctr = .ok (q, c)) (hdup : q.hasDup = false) :
     (Query.eval s.tables q).rows = S.slots.sem S.skipTo.columns (sem σ S.skipTo) := by
   rw [(compile_sound σ s fuel).select S ctr q c hg hs hrd h hdup]
@@ -78,6 +80,26 @@ theorem sorted_slice_executes_in_order (σ : Leaves) (s : SqlState) (st : Store)
   obtain ⟨g1, F1, _⟩ := (treeBuild_sound σ st f1).apply _ t r1 (raw_good σ t hwf htr hraw) h1
   obtain ⟨g2, F2, _⟩ := (treeBuild_sound σ st f2).apply _ (r1.get t) r2 g1 h2
   rw [sqlRun_sound_good σ s st _ out bb g2 hready hrun]
+  have e2 : sem σ (r2.get (r1.get t)) = sliceList a b (sem σ (r1.get t)) := F2.sem_eq
+  have e1 : sem σ (r1.get t) = isort (lexLe ts) (sem σ t) := F1.sem_eq
+  rw [e2, e1]
+
+/-- The same with the semantic hypothesis on the INPUT tree (its leaves and markers hold faithful payloads). -/
+theorem sorted_slice_executes_in_order_of_faithful_input (σ : Leaves) (s : SqlState) (st : Store) (f1 f2 : Nat)
+    (ts : List SortTerm) (a : Nat) (b : Option Nat) (t : Rel) (r1 r2 : Res) (out : EvalOut) (bb : Bool)
+    (hwf : t.WF) (htr : t.Truthful σ) (hraw : t.RawSql) (hF : t.Faithful s s.tables σ) (h0 : s.payload 0 = none)
+    (h1 : applyOp st f1 (.u (.sort ts)) t {} = .ok r1)
+    (h2 : applyOp st f2 (.u (.slice a b)) (r1.get t) {} = .ok r2)
+    (hready : ∀ c, conform st defaultFuel (r2.get (r1.get t)) = .ok c →
+      (c.get (r2.get (r1.get t))).structReady s = true)
+    (hrun : sqlRun s st (r2.get (r1.get t)) = .inr (out, bb)) :
+    out.rows = sliceList a b (isort (lexLe ts) (sem σ t)) := by
+  have g0 : Good (payInv s s.tables σ h0) σ t :=
+    raw_goodI σ t hwf htr hraw (atomsOK_of_faithful s s.tables σ h0 t hraw hF)
+  obtain ⟨g1, F1, _⟩ := (treeBuild_sound σ st f1).apply _ t r1 g0 h1
+  obtain ⟨g2, F2, _⟩ := (treeBuild_sound σ st f2).apply _ (r1.get t) r2 g1 h2
+  rw [sqlRun_sound_good σ s st _ out bb g2 (fun c hc => ⟨hready c hc,
+    ((treeBuild_sound σ st defaultFuel).conform _ c g2 hc).1.faithful⟩) hrun]
   have e2 : sem σ (r2.get (r1.get t)) = sliceList a b (sem σ (r1.get t)) := F2.sem_eq
   have e1 : sem σ (r1.get t) = isort (lexLe ts) (sem σ t) := F1.sem_eq
   rw [e2, e1]
